@@ -33,6 +33,8 @@ CaseDrift(ev, c) ==
     \cup (IF c.size <= c.mtu /\ c.err = "nil" /\ c.nd = 0 /\ ~c.lostc THEN {"lost"} ELSE {})
     \cup (IF c.size <= c.mtu /\ c.err \in {"ctx", "other"} THEN {"failed"} ELSE {})
     \cup (IF c.size <= c.mtu /\ c.nd > 1 THEN {"duplicated"} ELSE {})
+    \* needed a confirming re-measurement which the run's budget did not allow any more: stays unjudged
+    \cup (IF c.nobudget THEN {"not re-measured: budget"} ELSE {})
 
 TraceNext ==
     /\ l <= Len(Log)
